@@ -29,7 +29,7 @@ PROPS = {
         jobs=[dict(harness=BROKER_H, entries=r"^H_C05_|^H_C07_pipeline_other_type$", params=dict(quick=dict(K=2, L=2, H=2, N=6, NR=4), thorough=dict(K=3, L=3, H=3, N=6, NR=5)),
                    shards=dict(quick=1, thorough=16, H_C05_RegisterPipeline=16, H_C05_isany_after_history=16, H_C05_history_vs_model=16, H_C07_pipeline_other_type=8))],
         must_reach=["C05.register.ok", "C05.register.fail", "C05.isany.end", "C05.registernode.fail", "C05.removenode.fail", "C05.rpan.false", "C05.isany.history", "C05.history.end", "C05.shapes.accepted", "C05.shapes.end", "C05.repeated.accepted"],
-        bounds=dict(quick="K=2 node ids, definition length 0..2, existing pipeline length 2, one other pipeline; any number of pipelines of other types (ghost); histories: 2 operations (12 kinds x policy) from 72 API-built pre-states over ids {f,s,s2} x pipelines {p,q}",
+        bounds=dict(quick="K=2 node ids, definition length 0..2, existing pipeline length 2, one other pipeline; any number of pipelines of other types (ghost); histories: 2 operations (16 kinds x policy) from 256 API-built pre-states over ids {f,s,s2,x} x pipelines {p,q} of type t and p of type u, live or done context",
                     thorough="K=3 node ids, definition length 0..3, existing pipeline length 2..3; histories of 3 operations"),
         trusted_base=COMMON_TRUST,
     ),
